@@ -12,6 +12,7 @@ import (
 	"encoding/binary"
 	"encoding/json"
 	"fmt"
+	"io"
 	"io/ioutil"
 	"os"
 	"path"
@@ -414,23 +415,25 @@ func (s *Store) persistHeader(file File) error {
 	return nil
 }
 
+// errHeaderIncomplete is returned by checkHeader() for a file whose
+// header page was never completely written, as left behind when the
+// process or machine stopped while the file was being created.
+var errHeaderIncomplete = fmt.Errorf("store: readHeader incomplete header")
+
 func checkHeader(file File) error {
 	buf := make([]byte, StorePageSize)
 
 	n, err := file.ReadAt(buf, int64(0))
+	if err == io.EOF || (err == nil && n != len(buf)) {
+		return errHeaderIncomplete
+	}
 	if err != nil {
 		return err
 	}
-	if n != len(buf) {
-		return fmt.Errorf("store: readHeader too short")
-	}
 
 	lines := strings.Split(string(buf), "\n")
-	if len(lines) < 2 {
-		return fmt.Errorf("store: readHeader not enough lines")
-	}
-	if lines[0] != "moss-data-store:" {
-		return fmt.Errorf("store: readHeader wrong file prefix")
+	if len(lines) < 2 || lines[0] != "moss-data-store:" {
+		return errHeaderIncomplete
 	}
 
 	hdr := Header{}
@@ -576,6 +579,12 @@ func openStore(dir string, options StoreOptions) (*Store, error) {
 			" files found: %q", fnames)
 	}
 
+	// When every candidate file turns out to be incomplete (no header
+	// or no footer yet), the directory is what a crash during the very
+	// first persistence leaves behind, which is an empty store.
+	onlyIncomplete := true
+	var lastErr error
+
 	for i := len(fnames) - 1; i >= 0; i-- {
 		var flag int
 		var perm os.FileMode
@@ -589,12 +598,17 @@ func openStore(dir string, options StoreOptions) (*Store, error) {
 
 		file, err := options.OpenFile(path.Join(dir, fnames[i]), flag, perm)
 		if err != nil {
+			onlyIncomplete = false
+			lastErr = err
 			continue
 		}
 
 		err = checkHeader(file)
 		if err != nil {
 			file.Close()
+			if err == errHeaderIncomplete {
+				continue // Stopped while creating this file; try older ones.
+			}
 			return nil, err
 		}
 
@@ -602,6 +616,10 @@ func openStore(dir string, options StoreOptions) (*Store, error) {
 		footer, err := ReadFooter(&options, file) // Footer owns file on success.
 		if err != nil {
 			file.Close()
+			if err != ErrNoValidFooter {
+				onlyIncomplete = false
+				lastErr = err
+			}
 			continue
 		}
 
@@ -633,8 +651,27 @@ func openStore(dir string, options StoreOptions) (*Store, error) {
 		}, nil
 	}
 
+	if onlyIncomplete {
+		emptyFooter := &Footer{
+			refs:         1,
+			ss:           &segmentStack{options: &options.CollectionOptions},
+			ChildFooters: make(map[string]*Footer),
+		}
+
+		return &Store{
+			dir:          dir,
+			options:      &options,
+			refs:         1,
+			footer:       emptyFooter,
+			nextFNameSeq: maxFNameSeq + 1,
+			histograms:   histograms,
+			fileRefMap:   make(map[string]*FileRef),
+			abortCh:      make(chan struct{}),
+		}, nil
+	}
+
 	return nil, fmt.Errorf("store: could not open/parse"+
-		" any file, dir: %s", dir)
+		" any file, dir: %s, last err: %v", dir, lastErr)
 }
 
 // --------------------------------------------------------
